@@ -44,21 +44,21 @@ func (s Schema) WithOwnTypes() *Schema {
 	}
 }
 
-// WithRootNode returns a schema with the given root node and the same table of
-// types (the table itself, not a copy of it).
+// WithRootNode returns a copy of the schema with the given root node. The copy
+// has a private table of types, see WithOwnTypes: the properties the "allOf"
+// rule adds to the root node bring the names of their types with them.
 func (s *Schema) WithRootNode(node Node) *Schema {
-	return &Schema{
-		types:    s.types,
-		rootNode: node,
-		origin:   s,
-	}
+	cp := s.WithOwnTypes()
+	cp.rootNode = node
+	cp.origin = s
+	return cp
 }
 
-// IsCopyOf reports whether the schema was made of the given one by WithRootNode.
-// The tables of types other than the one the copy was put into (see
-// ReplaceTypeSchema) still hold the given one.
-func (s *Schema) IsCopyOf(schema *Schema) bool {
-	return s != nil && s.origin != nil && s.origin == schema
+// IsCopy reports whether the schema was made by WithRootNode. The tables of types
+// other than the one the copy was put into (see ReplaceTypeSchema) hold the
+// schema as it is written.
+func (s *Schema) IsCopy() bool {
+	return s != nil && s.origin != nil
 }
 
 // ReplaceTypeSchema makes the name stand for the given schema. Everything else
